@@ -31,7 +31,7 @@ def main():
                 tasks.append(case_to_task(c.with_(word=3 + i % 2, stack=96), mode='diff', max_steps=8000, allow_reject=True))
     # small stacks: a build that leaks array storage (or frames) still agrees at a generous stack; at 20..32 words it does not
     for c in F.alloc_templates() + F.scope_templates()[::3]:
-        if any(k in c.name for k in ('repeat-array-calls', 'call-chain', 'rec-arrays', 'lit-elems-callee', 'return-expr', 'mixed-static-dynamic', 'while-vla')):
+        if any(k in c.name for k in ('repeat-array-calls', 'call-chain', 'rec-arrays', 'lit-elems-callee', 'return-expr', 'mixed-static-dynamic', 'while-vla', 'stop-loop-callee-array', 'stop-deep', 'literal-temporaries', 'entry-point')):
             for stack in (20, 24, 32):
                 tasks.append(case_to_task(c.with_(word=2, stack=stack, name='%s/stack%d' % (c.name, stack)), mode='diff', max_steps=8000))
     nfree = [0]
